@@ -161,7 +161,13 @@ def _scan(ctx, u, f, name, algo, role):
         if td is not None and kids(td):
             il = peel(kids(td)[-1])
             if il.get('kind') == 'InitListExpr' and kids(il):
-                out['query'] = re.sub(r'#0x[0-9a-f]+', '', keys.key(kids(il)[0]))
+                q_ = peel(kids(il)[0])
+                # the instant searched for: what the query local was initialised from (it may be adjusted afterwards)
+                if q_ is not None and q_.get('kind') == 'DeclRefExpr':
+                    qd_ = u.by_id.get((q_.get('referencedDecl') or {}).get('id'))
+                    if qd_ is not None and qd_.get('kind') == 'VarDecl' and kids(qd_):
+                        q_ = kids(qd_)[-1]
+                out['query'] = re.sub(r'#0x[0-9a-f]+', '', keys.key(q_))
     ctx.check(out['cmp_field'] == 'unix_time', 'C11-bound', '%s orders the search by unix_time' % short, calls[0],
               'the search is not ordered by the transition instant', construct='cmpfield:%s' % short, detail=str(out['cmp_field']))
     size = '%s.size()' % base
